@@ -162,6 +162,9 @@ func buildBatchWorld(root string, days int) *batchWorld {
 		p.ID, p.Plot, p.Field, p.SoilID = id, plot, field, sid
 		p.Rotation = append(p.Rotation[:1], proj.CropEntry{Crop: crop, Sow: isoAdd(start, 1), Harvest: isoAdd(start, 300), Rex: 50, Variety: variety})
 		p.Config["OutputIntervall"] = "1"
+		p.Config["ManagementEvents"] = "1" // the sowing event names the crop code the run resolved
+		p.Config["AnnualOutputDate"] = proj.D(isoAdd(start, days-1)).Format("0201")
+		p.YearlyCols = minimalDailyWith("OUTSUM", "PerY", "SWCY1", "SWCY2", "AUFNASUM")
 		p.Fert = []proj.Fert{{Date: isoAdd(start, 1), Amount: 40, Kind: "KAS"}}
 		p.DailyCols = minimalDailyWith("OBMAS", "PESUM", "C1:0", "WG:1:0", "OUTSUM", "WURZ")
 		word := make([]string, days)
